@@ -187,7 +187,8 @@ def run(ctx):
                 "rare categories of 1-3 rows - dyadic or decimal weights) re-encodes every dimension to every value incl. the rare and an "
                 "absent one, so the dominant category becomes a stored entry; those calls go to Coq only while the literal stays small "
                 "(theorems are size-independent), else they are judged by the exact oracle and against the original encoding only and "
-                "counted as oracle_only_calls; a case = one (re-encoded cube or block, call) literal; non-trivial when N > 0 and the new common differs "
+                "counted as oracle_only_calls; the FORM of every argument (fact / weight dtype, layout, container; how the iindex is built) varies in about "
+                "60 % of the cases as in C03 (tags form:*); a case = one (re-encoded cube or block, call) literal; non-trivial when N > 0 and the new common differs "
                 "from the stored one")
     ctx.trusted = list(core.STD_TRUSTED) + [
         "as C03 (NumPy primitives modelled); IIndex/OpsA.shift_common is the model of iindex.shift_common (tied by property C06)",
@@ -318,6 +319,8 @@ def run(ctx):
     for i in range(n_dec):
         one(ca.decimal_case(rng, kind=rng.choice(["mean", "mean", "mean", "valid_count", "sum", "count"]), nd=rng.choice([1, 1, 2, 2, 3]), absent=True))
     n_dec_calls = S.calls - calls0
+    for i in range(600 if thorough else 60):
+        one(ca.int_weights_case(rng))
     n_scale = 900 if thorough else 70
     for i in range(n_scale):
         one(ca.scale_case(rng, decimal=(i % 3 == 2)))
